@@ -17,6 +17,8 @@ if os.environ.get('PYTHONHASHSEED') is None or (os.environ.get('PFST_VERIF_CHILD
 sys.path.insert(0, os.path.join(REPO, 'src'))
 sys.path.insert(0, HERE)
 sys.setrecursionlimit(3000)
+import warnings  # noqa: E402
+warnings.filterwarnings("ignore", category=SyntaxWarning)
 
 from sim.cli import main  # noqa: E402
 
